@@ -62,7 +62,7 @@ variable [Add S] [Sub S] [Mul S] [Div S] [Neg S] [OfNat S 0] [OfNat S 1] [NatCas
 `first` is `iter == 0`; `ev` is `polynomial.eval_univariate`. -/
 def bisectPass (ev : S → Except PErr S) (first : Bool) (st : BState S) : Except PErr (BState S) :=
   let old := st.x
-  let x : S := (st.lower + st.upper) / ((2 : Nat) : S)
+  let x : S := st.lower / ((2 : Nat) : S) + st.upper / ((2 : Nat) : S)
   -- `if iter > 0 && x_curr != 0.0 { approx_err = ((x_curr - old).abs() / x_curr) * 100.0 }`
   let aerr : S := if !first && !(x == 0) then (sabs (x - old) / x) * ((100 : Nat) : S) else st.aerr
   match ev st.lower with
